@@ -117,4 +117,33 @@ theorem loopW_filter (keep : Nat → Bool) (upd : Nat → α → α) (xs : List 
   · simp; omega
   · omega
 
+theorem goW_snd (keep : Nat → Bool) (upd : Nat → α → α) : ∀ (rest : List α) (i : Nat) (kept junk : List α),
+    (goW keep upd i kept junk rest).2.Perm (junk ++ filterIdx (fun j => !keep j) i (updFrom upd i rest))
+  | [], i, kept, junk => by simp [goW, filterIdx, updFrom]
+  | x :: r, i, kept, junk => by
+    by_cases hp : keep i
+    · cases junk with
+      | nil => simpa [goW, filterIdx, updFrom, hp] using goW_snd keep upd r (i + 1) (kept ++ [upd i x]) []
+      | cons j0 js =>
+        have := goW_snd keep upd r (i + 1) (kept ++ [upd i x]) (js ++ [j0])
+        simp only [goW, filterIdx, updFrom, hp, Bool.not_true, Bool.false_eq_true, ↓reduceIte]
+        refine this.trans ?_
+        refine List.Perm.append_right _ ?_
+        exact (List.perm_append_comm (l₁ := js) (l₂ := [j0]))
+    · have := goW_snd keep upd r (i + 1) kept (junk ++ [upd i x])
+      simp only [goW, filterIdx, updFrom, hp, Bool.not_false, ↓reduceIte]
+      simpa [List.append_assoc] using this
+
+/-- what the final `truncate` discards is, as a multiset, the written elements the callback rejected -/
+theorem loopW_junk (keep : Nat → Bool) (upd : Nat → α → α) (xs : List α) :
+    let r := loopW keep upd xs.length 0 0 xs []
+    (r.1.drop (xs.length - r.2.1)).Perm (filterIdx (fun j => !keep j) 0 (updFrom upd 0 xs)) := by
+  have h := loopW_go keep upd xs [] [] []
+  have h2 := goW_len keep upd xs 0 [] []
+  have h3 := goW_snd keep upd xs 0 [] []
+  simp only [List.length_nil, Nat.add_zero, List.nil_append] at h h2 h3
+  simp only [h]
+  rw [List.drop_append_of_le_length (by omega), List.drop_of_length_le (by omega)]
+  simpa using h3
+
 end Soa.RetainIdx
